@@ -62,6 +62,34 @@ def wfDef (ps : List Param) : Bool :=
   (ps.filter (·.isStar)).all (fun p => p.position == some n) &&
   (ps.filter (·.isStarStar)).all (fun p => p.position == none)
 
+/-! ### argument slots -/
+
+/-- the argument slot of a visible positional parameter -/
+def slotOf (ps : List Param) (p : Param) : Option Nat :=
+  match p.position with
+  | some q => if p.isStar || p.hidden then none else some (q - fixAt ps q)
+  | none => none
+
+def hiddenPositional (p : Param) : Bool := p.position.isSome && !p.isStar && p.hidden
+
+/-- number of argument slots owned by visible positional parameters -/
+def visCount (ps : List Param) : Nat := positionalCount ps - (ps.filter hiddenPositional).length
+
+/-- every visible positional parameter owns a slot below `visCount`, no other parameter owns the same
+    slot or is passed under the same name: the side conditions of `C12.spelling_kw_move` /
+    `spelling_default_move` hold for every parameter of the table -/
+def movesOk (ps : List Param) : Bool :=
+  (List.range ps.length).all fun i =>
+    match ps[i]? with
+    | some p =>
+        match slotOf ps p with
+        | some s =>
+            decide (s < visCount ps) &&
+            (ps.take i ++ ps.drop (i + 1)).all fun p' =>
+              (slotOf ps p' != some s) && (p'.hidden || p'.argName != p.argName)
+        | none => true
+    | none => true
+
 /-! ### the naming convention -/
 
 def isWordChar (c : Char) : Bool := c.isAlphanum || c == '_'
